@@ -45,6 +45,9 @@ pub mod onion_utils;
 pub mod outbound_payment;
 pub mod wire;
 
+#[cfg(feature = "_verif_hooks")]
+pub mod verif_hooks;
+
 #[allow(dead_code)] // TODO(dual_funding): Remove once contribution to V2 channels is enabled.
 pub(crate) mod interactivetxs;
 
